@@ -108,6 +108,11 @@ pub fn fillers(d: Dialect) -> Vec<X> {
     v.push(X::Case(vec![(X::Bin(b(p.clone()), BinOper::Equal, b(X::Int(1))), q.clone())], Some(b(r.clone()))));
     v.push(X::Int(-3));
     v.push(X::Tuple(vec![p.clone(), q.clone()]));
+    // custom SQL fragments with an operator inside, with and without blanks
+    v.push(X::Cust("1+2".into()));
+    v.push(X::Cust("1 + 2".into()));
+    v.push(X::Cust("3=3".into()));
+    v.push(X::Cust("1 = 1 OR 2 = 3".into()));
     // enum cast over a compound expression: CAST(.. AS "mood") on Postgres, the bare operand elsewhere
     v.push(X::AsEnum("mood".into(), b(X::Bin(b(p.clone()), BinOper::Add, b(q.clone())))));
     v.push(X::AsEnum("mood".into(), b(X::Bin(b(p.clone()), BinOper::Or, b(q.clone())))));
